@@ -1,19 +1,23 @@
 import Vorbis.File.Model
+import Vorbis.Props.C07
 namespace Vorbis.Props.C12
-open Vorbis Vorbis.File
+open Vorbis Vorbis.File Vorbis.Props
 
-/-- the search a page seek performs reads nothing but the link table: two handles that agree on
-    the table (whatever happened to their decode state, cursor or position, e.g. in a failed call)
-    find the same page -/
-theorem C12_search_reads_only_link_table (ph : Phys) (a b : VF) (link : Nat) (target : Int)
-    (h1 : a.offsets = b.offsets) (h2 : a.dataoffsets = b.dataoffsets) (h3 : a.pcmlengths = b.pcmlengths)
-    (h4 : a.serialnos = b.serialnos) :
-    (searchPcm ph a link target).best = (searchPcm ph b link target).best ∧
-    (searchPcm ph a link target).cur = (searchPcm ph b link target).cur ∧
-    (searchPcm ph a link target).err = (searchPcm ph b link target).err := by
-  unfold searchPcm
-  simp only [h1, h2, h3, h4]
-  exact ⟨trivial, trivial, trivial⟩
+/-- what a page seek is going to do is decided from the link table and the target alone: two handles that agree on the table
+    (whatever a failed call did to decoder, cursor, queue or position) get the same plan -/
+theorem C12_plan_reads_only_link_table (ph : Phys) (a b : VF) (pos : Int) (h : a.tab = b.tab) :
+    planSeekPage ph a.tab pos = planSeekPage ph b.tab pos := by rw [h]
+
+/-- recovery: a handle that went through any failed calls (its decoder dumped, its cursor anywhere, its position unknown) and a
+    handle that never failed, on the same file, answer a page seek with the same code, byte cursor, sample position, packet queue
+    and selected link (C07_page_seek_history_independent instantiated: nothing about the failure can reach the outcome) -/
+theorem C12_recovery_after_failure (ph : Phys) (f : Int → M Int) (pos : Int) (failed clean : VF)
+    (ht : failed.tab = clean.tab) (hf : failed.ready ≥ OPENED) (hc : clean.ready ≥ OPENED)
+    (sf : failed.seekable = true) (sc : clean.seekable = true) (wf : C07.LinkWF failed) (wc : C07.LinkWF clean)
+    (hp : 0 ≤ pos ∧ pos ≤ sumAll failed.tab) (hnr : ∀ l c o r, planSeekPage ph failed.tab pos ≠ .viaRaw l c o r) :
+    ((pcmSeekPage ph f pos).run failed).1 = ((pcmSeekPage ph f pos).run clean).1 ∧
+    C07.obs ((pcmSeekPage ph f pos).run failed).2 = C07.obs ((pcmSeekPage ph f pos).run clean).2 :=
+  C07.C07_page_seek_history_independent ph f pos failed clean ht hf hc sf sc wf wc hp hnr
 
 /-- the error exit of every seek: position unknown, decoder dumped, data source still attached and
     not closed -/
